@@ -31,31 +31,27 @@ class Builtins:
             self.e.axioms.append((key, builder()))
 
     def f_psum(self):
+        """psum(a, i) = a[0] + ... + a[i-1].  Only the base case is a global axiom; the recursive case is
+        instantiated explicitly (lemma_psum_unfold) so that proofs do not depend on trigger luck."""
         f = z3.Function("psum", IntArr, I, I)
 
         def ax():
             a = z3.Const("a!ps", IntArr)
             i = z3.Int("i!ps")
-            return z3.And(
-                z3.ForAll([a], f(a, 0) == 0),
-                z3.ForAll([a, i], z3.Implies(i >= 0, f(a, i + 1) == f(a, i) + a[i]), patterns=[f(a, i + 1)]),
-                z3.ForAll([a, i], z3.Implies(i > 0, f(a, i) == f(a, i - 1) + a[i - 1]), patterns=[f(a, i)]),
-            )
+            return z3.ForAll([a], f(a, 0) == 0, patterns=[f(a, 0)])
         self.axiom("psum.def", ax)
         return f
 
     def f_prod(self):
-        """prod(a, lo, hi) = product of a[lo..hi-1] (1 when empty)."""
+        """prod(a, lo, hi) = product of a[lo..hi-1] (1 when empty).  Only the base case is a global
+        axiom; the recursive case  lo < hi => prod(a,lo,hi) = a[lo] * prod(a,lo+1,hi)  would be a
+        matching loop, so it is instantiated explicitly (lemma_prod_unfold)."""
         f = z3.Function("prod", IntArr, I, I, I)
 
         def ax():
             a = z3.Const("a!pr", IntArr)
             lo, hi = z3.Ints("lo!pr hi!pr")
-            return z3.And(
-                z3.ForAll([a, lo, hi], z3.Implies(lo >= hi, f(a, lo, hi) == 1), patterns=[f(a, lo, hi)]),
-                z3.ForAll([a, lo, hi], z3.Implies(lo < hi, f(a, lo, hi) == a[lo] * f(a, lo + 1, hi)),
-                          patterns=[f(a, lo, hi)]),
-            )
+            return z3.ForAll([a, lo, hi], z3.Implies(lo >= hi, f(a, lo, hi) == 1), patterns=[f(a, lo, hi)])
         self.axiom("prod.def", ax)
         return f
 
@@ -775,6 +771,15 @@ class Builtins:
         a, lo, hi = self.args(n)
         return self._lemma("prod_pos", [self.int_array_of(a), self.e.coerce(lo, T.INT).t,
                                         self.e.coerce(hi, T.INT).t], line)
+
+    def bi_lemma_prod_unfold(self, n, line):
+        a, lo, hi = self.args(n)
+        return self._lemma("prod_unfold", [self.int_array_of(a), self.e.coerce(lo, T.INT).t,
+                                           self.e.coerce(hi, T.INT).t], line)
+
+    def bi_lemma_psum_unfold(self, n, line):
+        a, i = self.args(n)
+        return self._lemma("psum_unfold", [self.int_array_of(a), self.e.coerce(i, T.INT).t], line)
 
     def bi_lemma_div_bound(self, n, line):
         c, w, f = [self.e.coerce(x, T.INT).t for x in self.args(n)]
